@@ -112,6 +112,48 @@ theorem debt_forward_work (a : Arena) (op : Op) (hf : op.isForwardLike = true)
     (a.step op).1.ctx.metrics.allocationDebt ≤ a.ctx.metrics.allocationDebt :=
   ⟨step_fwdMet a op hf, (step_fwdMet a op hf).debt hmf⟩
 
+/-- No credit counter can outgrow the arena: in every state of every history, `marked`, `traced`
+    and `remembered` are at most `total_gc_count` (and `dropped ≤ remembered + freed`).  With
+    `count_exact` this bounds every counter the debt formula multiplies by the number of
+    allocations that exist or were released in the running cycle — the model's counters are
+    naturals, and this is why the implementation's `usize` counters cannot overflow before the
+    address space is exhausted. -/
+theorem counters_bounded (n : Nat) (ops : List Op) (halive : ((Arena.new n).run ops).alive = true) :
+    let m := ((Arena.new n).run ops).ctx.metrics
+    m.marked ≤ m.totalGcs ∧ m.traced ≤ m.totalGcs ∧ m.remembered ≤ m.totalGcs ∧
+      m.dropped ≤ m.remembered + m.freed := by
+  intro m
+  have hi := (inv_run n ops halive).cinv
+  have ha := acc_run n ops
+  have hcount := hi.count
+  have hlen : ∀ l : List Nat, nM ((Arena.new n).run ops).ctx l ≤ l.length := fun l => List.countP_le_length
+  have hlenB : ∀ l : List Nat, nB ((Arena.new n).run ops).ctx l ≤ l.length := fun l => List.countP_le_length
+  cases hp : ((Arena.new n).run ops).ctx.phase with
+  | drop => exact absurd hp hi.notDrop
+  | sleep =>
+    obtain ⟨e1, e2, e3, e4, e5⟩ := ha.1 hp
+    show m.marked ≤ m.totalGcs ∧ m.traced ≤ m.totalGcs ∧ m.remembered ≤ m.totalGcs ∧ m.dropped ≤ m.remembered + m.freed
+    simp only [m, e1, e2, e3, e4, e5]; omega
+  | mark =>
+    have hm := ha.2.1 hp
+    have h1 := hm.mkd
+    have h2 := hm.trd
+    have h3 := hlen (((Arena.new n).run ops).ctx.pre ++ ((Arena.new n).run ops).ctx.rest)
+    have h4 := hlenB (((Arena.new n).run ops).ctx.pre ++ ((Arena.new n).run ops).ctx.rest)
+    show m.marked ≤ m.totalGcs ∧ m.traced ≤ m.totalGcs ∧ m.remembered ≤ m.totalGcs ∧ m.dropped ≤ m.remembered + m.freed
+    simp only [m, hm.rem, hm.drp, hm.frd]
+    omega
+  | sweep =>
+    obtain ⟨rb, rw, dw, dfr, e1, e2, e3, e4, e5, e6, e7⟩ := ha.2.2 hp
+    have h3 := hlen ((Arena.new n).run ops).ctx.rest
+    have h4 := hlenB ((Arena.new n).run ops).ctx.rest
+    have hl : (((Arena.new n).run ops).ctx.pre ++ ((Arena.new n).run ops).ctx.rest).length =
+        ((Arena.new n).run ops).ctx.pre.length + ((Arena.new n).run ops).ctx.rest.length := List.length_append
+    show m.marked ≤ m.totalGcs ∧ m.traced ≤ m.totalGcs ∧ m.remembered ≤ m.totalGcs ∧ m.dropped ≤ m.remembered + m.freed
+    simp only [m]
+    omega
+
+
 /-- Non-vacuity: a concrete metrics state with positive debt. -/
 example : (0 : Rat) < ({ Metrics.new with totalGcs := 3, allocated := 3 } : Metrics).allocationDebt := by
   unfold Metrics.allocationDebt Metrics.new Metrics.cycleDebits Metrics.cycleCredits Pacing.default
